@@ -934,12 +934,10 @@ func runChain(t *rapid.T, r *rec.Recorder) {
 	gk := rapid.IntRange(0, 9).Draw(t, "genesis_kind")
 	switch {
 	case gk == 0:
-		if lowHeights {
-			g = 0
-		} else {
-			r.Exclude("low-height-recent-window")
-			g = E
-		}
+		// a genesis at block 0 of revision 0 is outside the domain since ClientState.Validate rejects the zero
+		// height (fix of C13 zero-height-client-export-invalid): the lowest reachable genesis is block E
+		_ = lowHeights
+		g = E
 	case gk <= 3:
 		g = E * uint64(rapid.IntRange(1, 3).Draw(t, "genesis_epochs"))
 	default:
